@@ -142,6 +142,7 @@ def build():
         ])
 
     add_get_ordered(w)
+    add_evolution_graph(w)
     fam = Family('contracts.graph', w)
     fam.lemmas.append(Lemma('cov', ['C09'], lemma_cov))
     fam.bounded.append(Bounded('get_ordered_small_graphs', ['C09'], bounded_get_ordered,
@@ -151,6 +152,31 @@ def build():
                                              'cross-check of the proved ordering contract'))
     fam.replay['bounded:get_ordered_small_graphs'] = replay_get_ordered
     return fam
+
+
+# ---------------------------------------------------------------------------------- EvolutionGraph
+
+def add_evolution_graph(w):
+    APP = K.Atom('App')
+    w.cls('EvolutionGraph', {'_app_evolution_nodes': K.Map(APP, K.Seq(NODE))}, bases=['DependencyGraph'], module=GRAPH)
+    w.stub('get_app_label', params={'app': APP}, returns=K.Str, pure=True)
+    w.stub('EvolutionGraph._make_evolution_key', params={'self': K.Ref('EvolutionGraph'), 'evolution': K.Tuple(K.Str, K.Str)},
+           returns=K.Str, pure=True, ensures=["result == 'evolution:%s:%s' % (evolution[0], evolution[1])"],
+           note='key of an (app_label, label) pair; the Evolution-object form is not used on this path')
+    GONE = ("forall((Str, Str), lambda a, b: ((a, b) in self._pending_deps) == (old((a, b) in self._pending_deps) and "
+            "not exists(range(len({L})), lambda i: a == 'evolution:%s:%s' % (get_app_label(app), sel({L}, i))) and "
+            "not exists(range(len({L})), lambda i: b == 'evolution:%s:%s' % (get_app_label(app), sel({L}, i)))))")
+    w.contract(
+        'EvolutionGraph.mark_evolutions_applied', module=GRAPH, serves=['C09'],
+        params={'self': K.Ref('EvolutionGraph'), 'app': APP, 'evolution_labels': K.Seq(K.Str)},
+        raises={'AssertionError': 'self._finalized'},
+        modifies=['DependencyGraph._pending_deps[self]'],
+        ensures=[
+            # requirements on the applied evolutions are dropped; the app's __first__/__last__ anchors only when the
+            # app has nothing pending in this graph (otherwise app-level requirements must survive)
+            "implies(app in self._app_evolution_nodes, " + GONE.format(L='evolution_labels') + ")",
+            "implies(app not in self._app_evolution_nodes, " + GONE.format(L="(evolution_labels + ['__first__', '__last__'])") + ")",
+        ])
 
 
 # ---------------------------------------------------------------------------------- get_ordered
